@@ -984,6 +984,7 @@ func runC12(c *Ctx) error {
 	runC12Multi(c)
 	runC12Calls(c)
 	runC12Bind(c)
+	runC12Eval(c)
 	c.Note("programs compiled: %d; constant variants with the operator folded away: %d, not folded: %d", nPrograms, nFolded, nNotFolded)
 	return nil
 }
